@@ -462,7 +462,8 @@ def run(ck):
         for fdecl in failing:
             ck.add_violation('obligation:' + fdecl.split(' ')[0], 'proof obligation no longer checks: %s' % fdecl,
                              {'theorem': fdecl, 'module': 'MpVerif.C02.Props', 'searched': '%d implementation runs' % n_cmp}, found_input=False)
-    ck.level = 'proof on model + correspondence'
+    ck.level = 'proof'
+    ck.notes.append('proof about the Lean model + correspondence of the model with the real reader on generated inputs; memory safety of the real code observed through ASan/UBSan only')
     ck.assumptions += ['LP64, little-endian IEEE host (arith::GetKind() = IEEE_LITTLE_ENDIAN), "C" numeric locale',
                        'memory safety / absence of UB of the real code is observed through ASan+UBSan on the generated inputs only; the Lean theorems are about the model',
                        'mp::Problem runs are limited to headers with counts <= 100000 (allocation by header counts)']
